@@ -26,6 +26,8 @@ def build(H, tier, seed):
     G.vc_func_builder(H)
     from contracts import options_c as O
     O.vc_options(H)
+    from contracts import misc_c as MC
+    MC.vc_codegen_sqrt(H)
 
 
 def standins(tier, seed):
